@@ -5,9 +5,9 @@ from .. import env, coq, runner, gates, opsem
 
 LEVEL = 'translation_validation'
 META = dict(
-    text='Coq theorems: the MappingManager model (two arrays, apply_swap) keeps phys_to_log o log_to_phys = id for every swap sequence and a swap applied twice restores the mapping; the routing certificate checker route_ok is sound (an accepted routed list is exactly the emission, under mapped_op/apply_swap, of a logical stream that is trace-equivalent to the input, every two-qubit operation lies on a graph edge, the tracked mapping equals the reported swap map); trace-equivalent streams denote the same map on states over every ring; Gateset/GateFamily membership and device validation models meet their specifications. On every run (translation validation of real outputs): optimize_for_target_gateset for the CZ, sqrt-iSWAP, Sycamore, Google CZ, IonQ API/native, AQT and Pasqal targets on generated circuits: every output operation is accepted (Cirq\'s validate, recomputed by the membership model inside Coq), the unitaries of input and output agree up to global phase (evaluated in Coq from each operation\'s own matrix), the input is unmodified; RouteCQC outputs over random connected (di)graphs and initial mappers pass route_ok (exact) and, independently, satisfy U_routed ~ P(swap_map) . U_ref; GridDevice / AQT / Pasqal / IonQ device validation accepts exactly when the model does.',
-    note='Trusted: Coq kernel; float instance (tolerance 2^-20 ~ 1e-6) for unitaries; the Python adapters that describe an operation abstractly (type ids along the mro, exponent class, tags, qubit integers) and that identify operations up to their qubits; numpy oracles used only to classify a disagreement. The compilers themselves (KAK, merging, swap selection) are not modelled: their outputs are validated per generated program, so the quantifier over programs is sampled. The semantic step from route_ok to equality of unitaries is proved up to trace equivalence (teq_same_run); the relabelling/SWAP step is compared numerically through the relation of DESIGN A.6, not proved.',
-    technique='Rocq/Coq proofs about the mapping manager, certificate checker and membership model + per-program translation validation by vm_compute on real compiler and router outputs',
+    text='Coq theorems (19, axiom-free): the MappingManager model (two arrays, apply_swap) keeps phys_to_log o log_to_phys = id for every swap sequence and a swap applied twice restores the mapping; the routing certificate checker route_ok is sound: an accepted routed list is exactly the emission, under mapped_op/apply_swap, of a logical stream that is trace-equivalent to the input, every two-qubit operation lies on a graph edge, the tracked mapping equals the reported swap map, and (route_ok_sem, over every ring with the laws, any number of qubits, any matrices) the routed circuit read through the final mapping computes the original circuit on the initial state read through the initial mapping; the CNOT.(HxH).CNOT.(HxH).CNOT block emitted on one-way edges equals SWAP exactly; Gateset.__contains__ (dictionary fast paths + scans) decides "some family accepts", type families follow isinstance along the mro, tag lists behave as documented, CircuitOperations are accepted iff unrolled and all inner operations are; device_accepts <-> in gateset /\\ qubits on device /\\ allowed pairs. On every run (translation validation of real outputs): optimize_for_target_gateset for 18 configurations of the CZ, sqrt-iSWAP, Sycamore, Google CZ, IonQ API/native, AQT and Pasqal targets on generated circuits: every output operation is accepted (gateset.validate, recomputed by the membership model inside Coq), input and output unitaries agree up to global phase (evaluated in Coq from each operation\'s own matrix), the input is unmodified; RouteCQC outputs over random connected (di)graphs and initial mappers pass route_ok (exact, vm_compute) and independently satisfy U_routed ~ P(swap_map) . U_ref; the real MappingManager arrays equal the model after random swap sequences; Gateset/GateFamily membership answers equal the model on ~16000 item x gateset pairs; GridDevice / AQT / Pasqal / IonQ validate_operation accepts exactly when the statement (and the device model) says so.',
+    note='Trusted: Coq kernel; float instance (tolerance 2^-20 ~ 1e-6) for unitaries; the Python adapters that describe an operation abstractly (type ids along the mro, == class, the instance gates it equals up to global phase as re-derived with numpy, tags, qubit integers) and that identify operations up to their qubits; numpy oracles used only to classify a disagreement. The compilers themselves (KAK, merging, swap selection) are not modelled: their outputs are validated per generated program, so the quantifier over programs is sampled. route_ok_sem covers certificates without directed-graph pieces; for directed graphs the collapse of the tagged CNOT/H block into a SWAP rests on the exact identity directed_swap_block plus commutation with operations on other qubits (argued, not proved) and the A.6 relation is compared numerically. The choice between old and new decomposition by two-qubit count does not affect the property and is only recorded as a supporting observation.',
+    technique='Rocq/Coq proofs about the mapping manager, certificate checker, membership and device models + per-program translation validation by vm_compute on real compiler and router outputs',
 )
 
 TOL = '0x1p-20'
